@@ -12,6 +12,7 @@ CONSTANTS
   Shapes = {"none"}
   KindsUsed = {"flush"}
   StaleMemo = FALSE
+  EventMutated = FALSE
   HKinds = {"flush"}
   HSDBs = {"default"}
   HColls = {"c1"}
